@@ -55,7 +55,7 @@ CHECKS = {
     ),
     'C07': dict(
         category='exploration',
-        text='The real Worker, DetachedServer, Manager and Compiler code is run in a deterministic single-threaded simulation whose every scheduling decision (which channel delivers next, which worker steps, where a worker main step is pre-empted at source-line granularity to let the incoming-message handler run) comes from the generated case. Generated task trees (submit/await in any order, map, map+next) x topologies x schedules x up to 3 pre-emptions are judged against a reference evaluator: client value, every body exactly once, no error shipped to the client, no hang, nothing parked at quiescence. A second family enumerates every single pre-emption point (worker step x line x k pending messages) of a fixed sequential-awaits program under six base schedules.',
+        text='The real Worker, DetachedServer, Manager and Compiler code is run in a deterministic single-threaded simulation whose every scheduling decision (which channel delivers next, which worker steps, where a worker main step is pre-empted at source-line granularity to let the incoming-message handler run) comes from the generated case. Generated task trees (submit/await in any order, map, map+next) x topologies x schedules x up to 3 pre-emptions are judged against a reference evaluator: client value, every body exactly once, no error shipped to the client, no hang, nothing parked at quiescence. A second family enumerates every single pre-emption point (worker step x line x k pending messages) of a fixed sequential-awaits program under six base schedules, and a third every point of a RESULT handler at which the main thread takes a step (interleavings the single-threaded simulator cannot continue are counted as inconclusive).',
         design_ref='DESIGN.md §4 C07, §3.5',
         note=SIMNOTE + ' Line-level interleavings are explored with at most 3 pre-emptions, the pre-empting thread running whole handlers.',
         technique='schedule-exploring property-based testing on a deterministic runtime simulator (Hypothesis-generated programs/schedules/pre-emptions + exhaustive single-pre-emption enumeration)',
@@ -90,14 +90,14 @@ CHECKS = {
     ),
     'C12': dict(
         category='exploration',
-        text='Generated task trees containing cancellation nodes (map + b x next() + cancel, submit + cancel, submit + cancel + await) and client-side cancel/disconnect of one of two compilations at a drawn moment, run on the deterministic simulator over generated topologies and delivery orders. Oracle: reference values (cancelled work never appears in any value; awaiting a cancelled future fails the compilation with the documented RuntimeError), execution log (non-cancelled bodies exactly once, cancelled at most once, none started on a worker after it handled the CANCEL), table hygiene at quiescence on every worker and on the server, and the other compilation completing correctly.',
+        text='Generated task trees containing cancellation nodes (map + b x next() + cancel, submit + cancel, submit + cancel + await) and client-side cancel/disconnect of one of two compilations at a drawn moment, run on the deterministic simulator over generated topologies and delivery orders. Oracle: reference values (cancelled work never appears in any value; awaiting a cancelled future fails the compilation with the documented RuntimeError), execution log (non-cancelled bodies exactly once, cancelled at most once, none started on a worker after it handled the CANCEL), once a worker has handled every CANCEL sent for a future no body of that future starts on it, table hygiene at quiescence on every worker and on the server, and the other compilation completing correctly. Cases carry up to 3 line-level pre-emptions in either direction; every single pre-emption point of four fixed cancel programs is enumerated.',
         design_ref='DESIGN.md §4 C12, §3.5',
         note=SIMNOTE,
         technique='schedule-exploring property-based testing on a deterministic runtime simulator with a reference evaluator and quiescence invariants',
     ),
     'C13': dict(
         category='exploration',
-        text='Histories of client API calls (submit/status/result/cancel/close interleaved with runtime progress) by 1-3 real Compiler objects against one simulated detached server, over task ids in every state (running, done, fetched, cancelled, unknown, another client\'s), with raising and logging task programs. Oracle: a per-task reference state machine, a server-liveness check after every call, delivery of the original error text to the owning client only, and correct values for every undisturbed task.',
+        text='Histories of client API calls (submit/status/result/cancel/close interleaved with runtime progress) by 1-3 real Compiler objects against one simulated detached server, over task ids in every state (running, done, fetched, cancelled, unknown, another client\'s), with raising and logging task programs. Oracle: a per-task reference state machine, a server-liveness check after every call, delivery of the original error text to the owning client only, status DONE for every finished live task once the system is quiescent, and correct values for every undisturbed task (with and without request_data).',
         design_ref='DESIGN.md §4 C13, §3.5',
         note=SIMNOTE,
         technique='stateful (history-based) property testing of the client/server protocol on a deterministic runtime simulator against a reference state machine',
@@ -111,7 +111,7 @@ CHECKS = {
     ),
     'C15': dict(
         category='exploration',
-        text='Generated programs with wide maps (fan-out below/equal/above the idle-worker count), bursts of submits and optional cancellation, over flat and hierarchical topologies and generated delivery orders with the scheduler\'s own randomness seeded from the case. After EVERY simulator action all per-employee and per-node counters are checked against their bounds; from the log of messages put on channels every created task must be forwarded exactly once per level and reach exactly one worker; at quiescence a server managing workers directly must believe all of them idle with zero tasks. WAITING/SUBMIT_BATCH crossings are measured (labels) to show the race is reached.',
+        text='Generated programs with wide maps (fan-out below/equal/above the idle-worker count), bursts of submits and optional cancellation, over flat and hierarchical topologies and generated delivery orders with the scheduler\'s own randomness seeded from the case. After EVERY simulator action all per-employee and per-node counters are checked against their bounds; from the log of messages put on channels every created task must be forwarded exactly once per level and reach exactly one worker; at quiescence a server managing workers directly must believe all of them idle with zero tasks. Right after a boss handles WAITING from a directly managed worker its idle belief is compared with ground truth kept by the simulator (how many task messages the worker had taken in when it sent WAITING). WAITING/SUBMIT_BATCH crossings are measured (labels); every point of a SUBMIT/SUBMIT_BATCH handler at which the worker main thread takes a step is enumerated for three fixed programs.',
         design_ref='DESIGN.md §4 C15, §3.5',
         note=SIMNOTE + ' One open known finding (task count drift after cancellation) is reported as KNOWN-FINDING.',
         technique='invariant checking after every step of schedule-exploring property-based tests on a deterministic runtime simulator',
